@@ -300,7 +300,7 @@ func (w *World) checkProperty(id, tier string, seed int, t0 time.Time, writeEvid
 			report(r, "proved on the baseline tree, now "+r.Status+" ("+r.Reason+")")
 			continue
 		}
-		if r.Status == "refuted" {
+		if r.Status == "refuted" || r.Status == "refuted-candidate" {
 			// new obligation (or never proved): a violation only if it replays
 			if w.replayReproduces(id, r) {
 				report(r, "new obligation refuted and counterexample reproduced")
